@@ -26,6 +26,9 @@ static void case_history(const Args &a, long idx, bool wantDesc, CaseResult &res
     bool transactions = R.coin(0.8);
     double pen = orth ? std::vector<double>{1, 10, 50}[R.ri(0, 2)] : (R.coin(0.7) ? 0 : R.coin() ? 5 : 50);
     bool allowPolys = !orth;
+    // "lenient" polyline histories: shapes may be placed over free connector endpoints and move off them again, and endpoints may
+    // be created inside shapes (legal use: an endpoint inside a shape is exempt from that shape)
+    bool lenient = !orth && R.coin(0.3);
     std::map<int, LiveShape> shapes; int nextId = 1;
     std::vector<LiveConn> conns;
     JArr hist;    // the recorded history
@@ -39,12 +42,15 @@ static void case_history(const Args &a, long idx, bool wantDesc, CaseResult &res
 
     auto fits = [&](const IPoly &pl, int skip) {
         for (auto &kv : shapes) if (kv.first != skip && !boxesClear(pl, kv.second.poly, 2)) return false;
+        if (lenient) return true;
         ll x0, y0, x1, y1; bbox(pl, x0, y0, x1, y1);
         for (auto &c : conns) for (IP p : {c.src, c.dst}) if (p.x >= x0 - 1 && p.x <= x1 + 1 && p.y >= y0 - 1 && p.y <= y1 + 1) return false;
         return true;
     };
     auto randPoly = [&](bool *isRect) { ll w = R.ri(3, 50), h = R.ri(3, 50), cx = R.ri(w + 5, 395 - w), cy = R.ri(h + 5, 395 - h); return randomConvex(R, cx, cy, w, h, allowPolys, isRect); };
-    auto freePt = [&](IP &p) { for (int t = 0; t < 300; t++) { p = IP{R.ri(0, 400), R.ri(0, 400)}; bool ok = true; for (auto &kv : shapes) { ll x0, y0, x1, y1; bbox(kv.second.poly, x0, y0, x1, y1); if (p.x >= x0 - 1 && p.x <= x1 + 1 && p.y >= y0 - 1 && p.y <= y1 + 1) ok = false; } if (ok) return true; } return false; };
+    auto freePt = [&](IP &p) {
+        if (lenient && !shapes.empty() && R.coin(0.4)) { auto it = shapes.begin(); std::advance(it, R.ri(0, (long)shapes.size() - 1)); ll x0, y0, x1, y1; bbox(it->second.poly, x0, y0, x1, y1); p = IP{(x0 + x1) / 2, (y0 + y1) / 2}; return true; }
+        for (int t = 0; t < 300; t++) { p = IP{R.ri(0, 400), R.ri(0, 400)}; bool ok = true; for (auto &kv : shapes) { ll x0, y0, x1, y1; bbox(kv.second.poly, x0, y0, x1, y1); if (p.x >= x0 - 1 && p.x <= x1 + 1 && p.y >= y0 - 1 && p.y <= y1 + 1) ok = false; } if (ok) return true; } return false; };
     auto addShape = [&]() -> int {
         for (int t = 0; t < 50; t++) { bool isRect; IPoly pl = randPoly(&isRect); if (!fits(pl, -1)) continue; Avoid::Polygon pg = toPolygon(pl); int id = nextId++; shapes[id] = LiveShape{pl, isRect, new Avoid::ShapeRef(router, pg)}; hist.raw(JObj().str("op", "addShape").i("id", id).raw("poly", polyj(pl)).done()); D.i(1); for (auto &p : pl) { D.i(p.x); D.i(p.y); } return id; }
         return -1;
@@ -73,13 +79,19 @@ static void case_history(const Args &a, long idx, bool wantDesc, CaseResult &res
             if (disp.ps[0].x != (double)conns[c].src.x || disp.ps[0].y != (double)conns[c].src.y || disp.ps[disp.size() - 1].x != (double)conns[c].dst.x || disp.ps[disp.size() - 1].y != (double)conns[c].dst.y) { res.violate("route-endpoints-stale", wit(0, 0)); continue; }
             // validity for the final scene
             std::vector<char> ex(S.shapes.size(), 0);
+            for (size_t s = 0; s < S.shapes.size(); s++) if (ptInClosed(conns[c].src, S.shapes[s].poly) || ptInClosed(conns[c].dst, S.shapes[s].poly)) ex[s] = 1;
             bool invalid = false, freshInvalid = false;
-            for (size_t i = 1; i < disp.size() && !invalid; i++) for (size_t s = 0; s < S.shapes.size(); s++) if (segHitsInteriorEps(DP{disp.ps[i - 1].x, disp.ps[i - 1].y}, DP{disp.ps[i].x, disp.ps[i].y}, S.shapes[s].poly, 1e-7)) { invalid = true; break; }
+            for (size_t i = 1; i < disp.size() && !invalid; i++) for (size_t s = 0; s < S.shapes.size(); s++) if (!ex[s] && segHitsInteriorEps(DP{disp.ps[i - 1].x, disp.ps[i - 1].y}, DP{disp.ps[i].x, disp.ps[i].y}, S.shapes[s].poly, 1e-7)) { invalid = true; break; }
             const Avoid::PolyLine &fdisp = F.conns[c]->displayRoute();
-            for (size_t i = 1; i < fdisp.size() && !freshInvalid; i++) for (size_t s = 0; s < S.shapes.size(); s++) if (segHitsInteriorEps(DP{fdisp.ps[i - 1].x, fdisp.ps[i - 1].y}, DP{fdisp.ps[i].x, fdisp.ps[i].y}, S.shapes[s].poly, 1e-7)) { freshInvalid = true; break; }
+            for (size_t i = 1; i < fdisp.size() && !freshInvalid; i++) for (size_t s = 0; s < S.shapes.size(); s++) if (!ex[s] && segHitsInteriorEps(DP{fdisp.ps[i - 1].x, fdisp.ps[i - 1].y}, DP{fdisp.ps[i].x, fdisp.ps[i].y}, S.shapes[s].poly, 1e-7)) { freshInvalid = true; break; }
             double ci = routeCost(inc, orth, pen), cf = routeCost(fresh, orth, pen);
             res.maxi("max_incremental_minus_fresh_cost", ci - cf);
-            if (invalid && !freshInvalid) { res.violate(std::string(orth ? "orthogonal" : "polyline") + ":incremental-route-invalid-for-final-scene", wit(ci, cf)); continue; }
+            if (invalid && !freshInvalid) {
+                // signature of F19 (degenerate contact): every raw segment that passes through a shape does so without properly crossing one of its edges
+                bool degenerate = !orth;
+                if (!orth) for (size_t i = 1; i < inc.size(); i++) for (size_t s = 0; s < S.shapes.size(); s++) { DP p{inc.ps[i - 1].x, inc.ps[i - 1].y}, q{inc.ps[i].x, inc.ps[i].y}; if (!ex[s] && segHitsInteriorEps(p, q, S.shapes[s].poly, 1e-7) && properlyCrossesAnEdge(p, q, S.shapes[s].poly)) degenerate = false; }
+                res.violate(std::string(orth ? "orthogonal" : "polyline") + (degenerate ? ":incremental-route-invalid-for-final-scene(degenerate-contact)" : ":incremental-route-invalid-for-final-scene"), wit(ci, cf)); continue;
+            }
             if (invalid && freshInvalid) { res.count("both_invalid(C03 business)"); continue; }
             bool freshUsesNew = false;   // signature of F28: with a bend penalty the fresh route bends at a corner of a shape that was only just placed
             if (pen > 0 && !orth) for (size_t i = 1; i + 1 < fresh.size(); i++) for (auto &pl : newlyPlaced) for (auto &v : pl) if (fresh.ps[i].x == (double)v.x && fresh.ps[i].y == (double)v.y) freshUsesNew = true;
@@ -172,7 +184,7 @@ static void case_history(const Args &a, long idx, bool wantDesc, CaseResult &res
     res.count("route_comparisons", comparisons);
     res.nontrivial = routeChanges > 0;
     res.digest = D.h;
-    res.gen = std::string(orth ? "orthogonal" : "polyline") + (transactions ? "/transactions" : "/immediate") + (pen > 0 ? "/penalty" : "/nopenalty");
+    res.gen = std::string(orth ? "orthogonal" : "polyline") + (transactions ? "/transactions" : "/immediate") + (pen > 0 ? "/penalty" : "/nopenalty") + (lenient ? "/endpoints-inside-shapes" : "");
     if (wantDesc || !res.findings.empty()) res.desc = JObj().str("routing", orth ? "orthogonal" : "polyline").b("transactions", transactions).num("segmentPenalty", pen).raw("history", hist.done()).done();
 }
 
